@@ -69,7 +69,9 @@ func getOr0(m map[prodKey]sdk.Int, k prodKey) sdk.Int {
 
 // ---------- C01 ----------
 
-type c01Oracle struct{}
+type c01Oracle struct {
+	reported map[prodKey]bool
+}
 
 func (o *c01Oracle) ID() string                  { return "c01.custody" }
 func (o *c01Oracle) Before(w *World, ev *Event) {}
@@ -161,6 +163,21 @@ func (o *c01Oracle) After(w *World, ev *Event, res Result) *Violation {
 				Detail: fmt.Sprintf("product (%d,%d) collateral-locked %s != open %s + awaiting settlement %s, after %s", m.AppId, m.ExtendedPairId, m.CollateralLockedAmount, getOr0(openIn, k), getOr0(locked.coll, k), ev.Tag)}
 		}
 		if !m.TokenMintedAmount.Equal(wantOut) {
+			if w.Liq != nil {
+				skew := getOr0(w.Liq.mintedSkew, k)
+				if !skew.IsZero() && m.TokenMintedAmount.Add(skew).Equal(wantOut) {
+					// exactly the interest + closing fee of vault auctions settled by a final V2 dutch bid: listed finding, accounted for, keep checking
+					if o.reported == nil {
+						o.reported = map[prodKey]bool{}
+					}
+					if o.reported[k] {
+						continue
+					}
+					o.reported[k] = true
+					return &Violation{Property: "C01", OracleID: "c01.totals.minted", Signature: "v2_dutch_settlement_subtracts_interest_and_closing_fee", Continue: true,
+						Detail: fmt.Sprintf("product (%d,%d) tokens-minted %s is short by %s = interest + closing fee of its settled V2 vault auctions (settlement subtracts total debt, only principal was ever added)", m.AppId, m.ExtendedPairId, m.TokenMintedAmount, skew)}
+				}
+			}
 			return &Violation{Property: "C01", OracleID: "c01.totals.minted", Signature: cmpSigInt(m.TokenMintedAmount, wantOut) + ctxTag(ev),
 				Detail: fmt.Sprintf("product (%d,%d) tokens-minted %s != open %s + awaiting settlement %s, after %s", m.AppId, m.ExtendedPairId, m.TokenMintedAmount, getOr0(openOut, k), getOr0(locked.principal, k), ev.Tag)}
 		}
@@ -321,7 +338,7 @@ func (o *c02Oracle) After(w *World, ev *Event, res Result) *Violation {
 	if anyLocked {
 		o.sawLiquidation = true
 	}
-	supply := w.Supply(denom)
+	supply := w.Supply(denom).Sub(w.Faucet.AmountOf(denom))
 	esmDebt := esmRegisteredDebt(w, denom)
 	bound := principal.Add(esmDebt)
 	if supply.GT(bound) {
